@@ -56,6 +56,8 @@ def main(seed, tier):
             b = kept.get(it["id"])
             if again.get("slow_reference") or it["id"] in slow_ids or again.get("forkserver_lost") or again.get("timeouts_not_confirmed"):
                 continue      # the wall-clock bail-outs (slow reference -> sampled plans, lost fork server) legitimately change the plan list
+            if any(k.startswith(("hang", "too-many-steps")) for k in a[3] + (b[3] if b else [])):
+                continue      # a run cut off by the wall clock under load (triage re-runs such reports before believing them)
             if b is not None and a != b:
                 raise HarnessError("item %d gives different results when re-run serially: the simulation is not deterministic" % it["id"])
             xcheck += 1
